@@ -40,6 +40,7 @@ Qed.
 Lemma lin_at_adm_window base eb mn mx tolv l cnt obs : lin_amb_level base eb mn mx false l = false ->
   lin_at_adm base eb mn mx tolv l cnt obs =
   match cnt with Some c => (c =? lin_count base eb mn mx false l)%Z | None => true end &&
+  (lin_count base eb mn mx false l <=? 1000000)%Z &&
   close_list tolv (lin_ticks_at base eb mn mx false l) obs.
 Proof.
   intro H. unfold lin_at_adm, lin_count, lin_ticks_at. cbv zeta. rewrite (first_last_adm_window _ _ _ _ _ _ H).
@@ -52,9 +53,12 @@ Qed.
 Theorem lin_level_adm_window base eb mn mx tolv lv : lin_amb_level base eb mn mx false (lv_level lv) = false ->
   lin_level_adm base eb mn mx tolv lv = true -> lin_level_exact base eb mn mx tolv lv = true.
 Proof.
-  intros W H. unfold lin_level_adm in H. rewrite (lin_at_adm_window _ _ _ _ _ _ _ _ W) in H. unfold lin_level_exact.
+  intros W H. unfold lin_level_adm in H. rewrite (lin_at_adm_window _ _ _ _ _ _ _ _ W) in H. unfold lin_level_exact. cbv zeta.
   apply andb_prop in H. destruct H as [H H2]. apply andb_prop in H. destruct H as [H0 _].
-  apply andb_prop in H2. destruct H2 as [H1 H3]. now rewrite H0, H1, H3.
+  apply andb_prop in H2. destruct H2 as [H2 H3]. apply andb_prop in H2. destruct H2 as [H1 H4].
+  apply Z.eqb_eq in H0, H1. apply Z.leb_le in H4. rewrite H0. cbn [Z.eqb]. rewrite H3.
+  replace (lin_count base eb mn mx false (lv_level lv) <=? 1000000)%Z with true by (symmetry; now apply Z.leb_le).
+  unfold count_ok. cbv zeta. rewrite H1. rewrite Z.min_l by (unfold MAXINT; lia). now rewrite Z.eqb_refl.
 Qed.
 Corollary lin_levels_borderline_in_window base eb mn mx tolv levels :
   forallb (lin_level_exact base eb mn mx tolv) levels = false ->
@@ -89,7 +93,7 @@ Lemma lin_none_adm_window o base eb mn mx ro lo hi r cnt :
 Proof.
   intros W Hb Mono ->. unfold lin_none_adm. destruct (find_level o cnt 0) as [c| |] eqn:F; try reflexivity.
   destruct (find_level_lowest o cnt 0 lo hi c Hb Mono F) as (B & Fit & _).
-  apply Bool.andb_false_iff. right. apply Bool.not_true_is_false. intro A.
+  destruct (hi - c <=? 3)%Z; [|reflexivity]. apply Bool.not_true_is_false. intro A.
   assert (P : (0 < Z.to_nat (hi - c + 1))%nat) by lia.
   rewrite forallb_forall in A. specialize (A c (zrange_head c _ P)). apply Z.ltb_lt in A. rewrite W in A. lia.
 Qed.
@@ -112,14 +116,14 @@ Proof.
   apply andb_prop in H. destruct H as [Hm H]. apply Z.leb_le in Hm.
   pose proof (lin_count_nonincreasing base eb a b lo hi He Ho) as Mono.
   rewrite (lin_search_eq o base eb a b false He) in *.
-  apply Bool.orb_true_iff in H. destruct H as [H|H].
-  - apply existsb_exists in H. destruct H as (L & _ & H).
+  match type of H with (if ?ex then _ else _) = true => destruct ex eqn:Hex end.
+  - clear H. rename Hex into H. apply existsb_exists in H. destruct H as (L & _ & H).
     apply andb_prop in H. destruct H as [H Hmi]. apply andb_prop in H. destruct H as [H Hma].
     apply andb_prop in H. destruct H as [H Hlen]. apply andb_prop in H. destruct H as [HL1 HL2].
     apply Z.leb_le in HL1, HL2, Hlen.
-    rewrite (lin_at_adm_window _ _ _ _ _ _ _ _ (W L)) in Hma. cbn [andb] in Hma.
+    rewrite (lin_at_adm_window _ _ _ _ _ _ _ _ (W L)) in Hma. cbn [andb] in Hma. apply andb_prop in Hma. destruct Hma as [_ Hma].
     apply andb_prop in Hmi. destruct Hmi as [Hlow Hmi].
-    rewrite (lin_at_adm_window _ _ _ _ _ _ _ _ (W (L - 1)%Z)) in Hmi. cbn [andb] in Hmi.
+    rewrite (lin_at_adm_window _ _ _ _ _ _ _ _ (W (L - 1)%Z)) in Hmi. cbn [andb] in Hmi. apply andb_prop in Hmi. destruct Hmi as [_ Hmi].
     pose proof (obs_close_length _ _ _ (close_list_sound _ _ _ Hma)) as Lma.
     pose proof (obs_close_length _ _ _ (close_list_sound _ _ _ Hmi)) as Lmi.
     exists L. split; [|auto].
@@ -128,7 +132,7 @@ Proof.
     + intros l' Hl'. apply Bool.orb_true_iff in Hlow. destruct Hlow as [E|E]; [apply Z.eqb_eq in E; lia|].
       apply Z.ltb_lt in E. rewrite Lmi, <- (lin_count_is_length base eb a b He Ho) in E.
       assert ((lin_count base eb a b false (L - 1) <= lin_count base eb a b false l')%Z) by (apply Mono; lia). lia.
-  - apply andb_prop in H. destruct H as [_ H].
+  - destruct major as [|? ?]; [|discriminate]. destruct mi as [|? ?]; [|discriminate].
     rewrite (lin_none_adm_window o base eb a b false lo hi _ (lin_count base eb a b false)) in H; [discriminate | | exact Hb | exact Mono | reflexivity].
     intro l. apply lin_cnt_max_window, W.
 Qed.
@@ -145,8 +149,8 @@ Proof.
   apply andb_prop in H. destruct H as [Hm H]. apply Z.leb_le in Hm.
   pose proof (lin_count_out_nonincreasing base eb He smn smx lo hi Lt) as Mono.
   rewrite (lin_search_eq o base eb smn smx true He) in *.
-  apply Bool.orb_true_iff in H. destruct H as [H|H].
-  - apply existsb_exists in H. destruct H as (L & _ & H).
+  match type of H with (if ?ex then _ else _) = true => destruct ex eqn:Hex0 end.
+  - clear H. rename Hex0 into H. apply existsb_exists in H. destruct H as (L & _ & H).
     apply andb_prop in H. destruct H as [H Hex]. apply andb_prop in H. destruct H as [H Hlow].
     apply andb_prop in H. destruct H as [HL1 HL2]. apply Z.leb_le in HL1, HL2.
     rewrite (first_last_adm_window _ _ _ _ _ _ (W L)) in Hex.
@@ -159,7 +163,7 @@ Proof.
         apply Z.ltb_lt in E. rewrite (lin_cnt_max_window _ _ _ _ _ _ (W (L - 1)%Z)) in E.
         assert ((lin_count base eb smn smx true (L - 1) <= lin_count base eb smn smx true l')%Z) by (apply Mono; lia). lia. }
     rewrite F. unfold lin_nice_from. rewrite Efl. cbn [fst snd]. exact Hw.
-  - apply andb_prop in H. destruct H as [_ H].
+  - match type of H with (if ?w then _ else _) = true => destruct w end; [|discriminate].
     rewrite (lin_none_adm_window o base eb smn smx true lo hi _ (lin_count base eb smn smx true)) in H; [discriminate | | exact Hb | exact Mono | reflexivity].
     intro l. apply lin_cnt_max_window, W.
 Qed.
